@@ -1,5 +1,5 @@
 (* C18 - targeton regions tile the reference range and are reported as such. *)
-From VV Require Import Model.Base Model.Targeton Proofs.TargetonProofs.
+From VV Require Import Model.Base Model.Targeton Proofs.TargetonProofs Generated.KernelsTargeton Proofs.KernelTargetonEquiv.
 
 (* const1, r1, r2, r3, const2 (empties omitted) list exactly the positions of [ref_start, ref_end], in order *)
 Theorem C18_regions_tile : forall c,
@@ -31,6 +31,15 @@ Example C18_readme :
       mkRange 41334298 41334312; mkRange 41334313 41334320].
 Proof. vm_compute. reflexivity. Qed.
 
+(* translation validation: TargetonConfig.__post_init__ and the region getters (with UIntRange.get_before / get_after), translated
+   from the source on every run, are the model definitions the tiling theorems are about, for all inputs *)
+Theorem C18_regions_match_source :
+  (forall c, k_targeton_post_init c = validate c) /\
+  (forall c, k_targeton_region_1 c = get_region_1 c) /\ (forall c, k_targeton_region_3 c = get_region_3 c) /\
+  (forall c, k_targeton_const_1 c = get_const_1 c) /\ (forall c, k_targeton_const_2 c = get_const_2 c).
+Proof. exact (conj k_targeton_post_init_eq (conj k_targeton_region_1_eq (conj k_targeton_region_3_eq (conj k_targeton_const_1_eq k_targeton_const_2_eq)))). Qed.
+
 Print Assumptions C18_regions_tile.
 Print Assumptions C18_seqs_concat_to_ref.
 Print Assumptions C18_r1_r3_flank.
+Print Assumptions C18_regions_match_source.
